@@ -190,8 +190,31 @@ class B:
             base[i].add('param:%d' % i)
         # closures: captured upvars are fields of _1; leave as field tokens (.N)
 
+        # `&mut self`-like roots: &mut parameters and their pure reborrows.  Reading a *field* through such a root
+        # yields the field token only (not everything that was ever written through the root): keeps the
+        # flow-insensitive analysis field-sensitive for state machines with `&mut self` methods.
+        mutroots = set(i for i in range(1, self.r['nargs'] + 1) if self.r['locals'][i]['ty'].startswith('&mut'))
+        grew = True
+        while grew:
+            grew = False
+            for blk in self.blocks:
+                for s in blk['s']:
+                    if s['d']['pr'] or s['d']['l'] in mutroots:
+                        continue
+                    r = s['r']
+                    src = None
+                    if r['k'] == 'ref' and r['m'] == 'mut' and r['p']['pr'] == ['*']:
+                        src = r['p']['l']
+                    elif r['k'] == 'use' and 'l' in r['o'][0] and not r['o'][0]['pr']:
+                        src = r['o'][0]['l']
+                    if src in mutroots and self.r['locals'][s['d']['l']]['ty'].startswith('&mut'):
+                        mutroots.add(s['d']['l'])
+                        grew = True
+        self._mutroots = mutroots
+
         def place_tokens(p, acc_base, acc_edges):
-            acc_edges.add(p['l'])
+            if not (p['l'] in mutroots and any(e.startswith('.') for e in p['pr'])):
+                acc_edges.add(p['l'])
             for e in p['pr']:
                 if e.startswith('.'):
                     acc_base.add('field:' + e[1:])
@@ -221,7 +244,9 @@ class B:
                 r = s['r']
                 k = r['k']
                 ab, ae = base[d], edges[d]
-                # writing through a projection that indexes by a local: index also an origin (ignored)
+                if d in mutroots and any(e.startswith('.') for e in s['d']['pr']):
+                    # store into a field behind `&mut self`: field contents are not tracked through the root
+                    ab, ae = set(), set()
                 if k in ('use', 'cast', 'bin', 'un', 'repeat'):
                     for o in r['o']:
                         op_tokens(o, ab, ae)
@@ -231,7 +256,7 @@ class B:
                         ab.add('op:' + r['op'])
                 elif k in ('ref', 'rawptr', 'copyderef', 'discr'):
                     place_tokens(r['p'], ab, ae)
-                    if k == 'ref' and not s['d']['pr']:
+                    if k == 'ref' and not s['d']['pr'] and not (r['p']['l'] in mutroots and any(e.startswith('.') for e in r['p']['pr'])):
                         refs.setdefault(d, set()).add(r['p']['l'])
                     if k == 'discr':
                         ab.add('discr')
@@ -366,7 +391,8 @@ class B:
         elif 'fn' in o:
             out.add('fnref:' + o['fn'])
         else:
-            out |= orig[o['l']]
+            if not (o['l'] in self._mutroots and any(e.startswith('.') for e in o['pr'])):
+                out |= orig[o['l']]
             for e in o['pr']:
                 if e.startswith('.'):
                     out.add('field:' + e[1:])
